@@ -154,6 +154,8 @@ prop('C09', units=['ls'], level='proof',
                   'to_proto::* conversions are external_body in this unit; position/range/location arithmetic is proved in unit LP (C10)'])
 
 prop('C12', units=['ls'], level='proof', relevant=r'^unit::vfs::',
+     bounded=[dict(test='c12_witness', covers='Server::set_file_content records the text of every didOpen/didChange as the document\'s open buffer (call site behind an RwLock write guard, outside the contracts)',
+                   bound='one recorded session on the real server: open inc.td, change inc.td, open root.td (includes inc.td), change root.td; go-to-definition after each root event')],
      explanation=('Unit LS, file vfs.rs (partial): Verus proves on the real text that Vfs::set_open_document records exactly the editor\'s text as the document\'s open buffer '
                   '(open_docs == old.insert(path, text): a later change replaces an earlier one) and that <Vfs as FileSystem>::read_content - the function through which the analysis reads every '
                   'included file - returns the open buffer when the document has one and what fs::read_to_string yields otherwise. Because ide::file_system::resolve_include_file stores in the '
